@@ -5,6 +5,12 @@ package main
 //   cfg k=v…           build the session (role, BeginString, chunk, reset flags, persist, latency, hb, initial counters)
 //   connect | in f… | in garbage | arrive f… | pop | timeout hb|peer|logon|logout | disc | stop
 //   send f… | flush | stime in|out|new | rtime n   (CheckResetTime with the clock at rtimeBase + n seconds)
+//   ddict app|tr <NAME> <serialised AST>   a specification of sessdict.go: written as XML under -out, loaded by the factory when
+//                      a later cfg names it (dd=<NAME>: DataDictionary / AppDataDictionary, tdd=<NAME>: TransportDataDictionary)
+// cfg vs=<5 bits> sets ValidateFieldsOutOfOrder RejectInvalidMessage AllowUnknownMsgFields ValidateUserDefinedFields
+//     ValidateFieldsHaveValues (absent = none of them set: the factory's defaults).
+// `in` / `arrive` may carry `!<kind>,<tag>` in front of the fields: what the generator says about the message in C15's terms
+// (`conforming`, or the single validator defect it planted); read by the monitor only.
 // cfg lsp=1 sets EnableLastMsgSeqNumProcessed (tag 369 on every outbound header).
 // cfg rst=n builds the session with ResetSeqTime = n seconds of the day (UTC, HH:MM:SS); rst=- leaves it unset.
 // Inbound messages are `tag=value` lists in wire order (without 9 and 10); `@n` is a UTCTimestamp now+n seconds.
@@ -23,6 +29,7 @@ import (
 )
 
 type sessImpl struct {
+	dicts map[string]string // dictionary name -> XML file written by a `ddict` op of this case
 	v     *quickfix.VerifSession
 	log   []string // ordered observations of the current event ("WIRE" marks the k-th outbound message)
 	cfg   map[string]string
@@ -90,6 +97,15 @@ func (s *sessImpl) reset(string) {
 		s.v = nil
 	}
 	s.log = nil
+	s.dicts = nil
+}
+
+// msgFields drops the generator's annotation from an `in` / `arrive` op
+func msgFields(w []string) []string {
+	if len(w) > 0 && strings.HasPrefix(w[0], "!") {
+		return w[1:]
+	}
+	return w
 }
 
 var bsNames = []string{"FIX.4.0", "FIX.4.1", "FIX.4.2", "FIX.4.3", "FIX.4.4", "FIXT.1.1"}
@@ -143,6 +159,36 @@ func (s *sessImpl) build(kv map[string]string) string {
 	}
 	if kv["lsp"] == "1" {
 		st.Set(config.EnableLastMsgSeqNumProcessed, "Y")
+	}
+	if vs, ok := kv["vs"]; ok {
+		if len(vs) != 5 || strings.Trim(vs, "01") != "" {
+			panic("bad op: vs")
+		}
+		for i, k := range []string{config.ValidateFieldsOutOfOrder, config.RejectInvalidMessage, config.AllowUnknownMessageFields,
+			config.CheckUserDefinedFields, config.ValidateFieldsHaveValues} {
+			st.Set(k, onoff(string(vs[i])))
+		}
+	}
+	dictPath := func(k string) (string, bool) {
+		n, ok := kv[k]
+		if !ok || n == "-" {
+			return "", false
+		}
+		p, ok := s.dicts[n]
+		if !ok {
+			panic("bad op: dictionary " + n + " not loaded")
+		}
+		return p, true
+	}
+	if p, ok := dictPath("dd"); ok {
+		if bsi == 5 {
+			st.Set(config.AppDataDictionary, p)
+		} else {
+			st.Set(config.DataDictionary, p)
+		}
+	}
+	if p, ok := dictPath("tdd"); ok {
+		st.Set(config.TransportDataDictionary, p)
 	}
 	if kv["sched"] == "1" {
 		now := time.Now().UTC()
@@ -304,8 +350,18 @@ func (s *sessImpl) exec(op string) string {
 			}
 			if s.v != nil {
 				s.v.Close()
+				s.v = nil
 			}
 			return s.observe(s.build(kv))
+		case "ddict":
+			if len(w) < 4 || (w[1] != "app" && w[1] != "tr") {
+				panic("bad op " + w[0])
+			}
+			if s.dicts == nil {
+				s.dicts = map[string]string{}
+			}
+			s.dicts[w[2]] = writeSessDict(w[2], parseAst(w[3:]))
+			return "loaded"
 		case "connect":
 			err := s.v.Connect(16)
 			status := "ok"
@@ -321,11 +377,11 @@ func (s *sessImpl) exec(op string) string {
 			if w[1] == "garbage" {
 				s.v.Incoming([]byte("8=FIX.4.2\x019=garbage\x0135=D\x0110=000\x01"))
 			} else {
-				s.v.Incoming(wireBytes(w[1:]))
+				s.v.Incoming(wireBytes(msgFields(w[1:])))
 			}
 			return s.observe("ok")
 		case "arrive":
-			if s.v.Arrive(wireBytes(w[1:])) {
+			if s.v.Arrive(wireBytes(msgFields(w[1:]))) {
 				return s.observe("ok")
 			}
 			return s.observe("noconn")
@@ -406,6 +462,7 @@ type sessGen struct {
 	sched  bool
 	rst    int // ResetSeqTime as seconds of the day, -1 = not configured
 	clock  int // the clock handed to CheckResetTime last (seconds after rtimeBase)
+	dict   bool // a data dictionary is configured
 }
 
 func pickInt(r *rng, xs []int) int { return xs[r.intn(len(xs))] }
@@ -451,10 +508,10 @@ func (g *sessGen) resetTick() {
 	case x < 4: // the peer's echo
 		h := g.goodHeader(1)
 		g.peerSeq = 2
-		g.run("in " + strings.Join(append(g.header("A", h), g.echoBody("141=Y")...), " "))
+		g.run("in !conforming,- " + strings.Join(append(g.header("A", h), g.echoBody("141=Y")...), " "))
 	case x < 6: // a Logon that is not an echo
 		h := g.goodHeader(pickInt(r, []int{1, 1, g.peerSeq}))
-		g.run("in " + strings.Join(append(g.header("A", h), g.echoBody(r.pick([]string{"", "", "141=N"}))...), " "))
+		g.run("in !conforming,- " + strings.Join(append(g.header("A", h), g.echoBody(r.pick([]string{"", "", "141=N"}))...), " "))
 	case x < 8: // application traffic, numbered as before the reset or from 1
 		g.run("in " + g.inbound("D", g.goodHeader(pickInt(r, []int{1, g.peerSeq, g.peerSeq + 1}))))
 	}
@@ -509,6 +566,7 @@ type hdrOpts struct {
 	noSnd   bool
 	noTgt   bool
 	routing []string
+	defective bool // a header defect was applied (the generator then makes no claim about validity)
 }
 
 func (g *sessGen) header(kind string, h hdrOpts) []string {
@@ -543,6 +601,7 @@ func (g *sessGen) goodHeader(seq int) hdrOpts {
 // defect: apply one or more header defects (C06 generator)
 func (g *sessGen) defect(h *hdrOpts) {
 	r := g.r
+	h.defective = true
 	n := 1
 	if r.chance(1, 4) {
 		n = 2
@@ -590,69 +649,81 @@ func (g *sessGen) defect(h *hdrOpts) {
 	}
 }
 
-func (g *sessGen) body(kind string) []string {
+// body: the fields behind the header and whether they conform to the dictionaries of sessdict.go (`quirk` = they do not, or
+// not certainly: the session-level variations below; the generator then makes no claim).  `planted`/`ptag`: a single
+// validator defect already in the body.
+func (g *sessGen) body(kind string) (f []string, quirk bool, planted, ptag string) {
 	r := g.r
 	switch kind {
 	case "A":
-		f := []string{"98=0", "108=" + r.pick([]string{"30", "30", "10", "5", "1", "0", "-3", "x", "60"})}
+		hb := r.pick([]string{"30", "30", "10", "5", "1", "0", "-3", "x", "60"})
+		f = []string{"98=0", "108=" + hb}
+		quirk = hb == "x"
 		if r.chance(1, 12) {
 			f = f[:1]
+			quirk = true
 		}
 		if r.chance(1, 5) {
-			f = append(f, "141="+r.pick([]string{"Y", "Y", "N", "Q"}))
+			fl := r.pick([]string{"Y", "Y", "N", "Q"})
+			f = append(f, "141="+fl)
+			quirk = quirk || fl == "Q"
 		}
 		if g.bsi == 5 && !r.chance(1, 15) {
 			f = append(f, "1137=9")
 		}
-		return f
+		return
 	case "1":
 		if r.chance(1, 8) {
-			return nil
+			return nil, true, "", ""
 		}
-		return []string{"112=" + r.pick([]string{"T1", "abc", "TEST", "x9"})}
+		return []string{"112=" + r.pick([]string{"T1", "abc", "TEST", "x9"})}, false, "", ""
 	case "0":
 		if r.chance(1, 2) {
-			return []string{"112=TEST"}
+			return []string{"112=TEST"}, false, "", ""
 		}
-		return nil
+		return nil, false, "", ""
 	case "2":
 		b := g.r.rangeInt(-1, g.sender+2)
 		e := r.pick([]string{"0", "999999", strconv.Itoa(b + r.intn(6)), strconv.Itoa(b - 1 - r.intn(3)), strconv.Itoa(g.sender + r.intn(5)), strconv.Itoa(r.intn(g.sender + 3))})
-		f := []string{"7=" + strconv.Itoa(b), "16=" + e}
+		f = []string{"7=" + strconv.Itoa(b), "16=" + e}
 		switch r.intn(14) {
 		case 0:
-			f = f[:1]
+			f, quirk = f[:1], true
 		case 1:
-			f = f[1:]
+			f, quirk = f[1:], true
 		case 2:
-			f[0] = "7=x"
+			f[0], quirk = "7=x", true
 		}
-		return f
+		return
 	case "4":
 		n := g.target + r.rangeInt(-3, 8)
-		f := []string{"36=" + strconv.Itoa(n)}
+		f = []string{"36=" + strconv.Itoa(n)}
 		switch r.intn(6) {
 		case 0:
 			f = append([]string{"123=N"}, f...)
 		case 1:
 		case 2:
 			f = append([]string{"123=" + r.pick([]string{"Q", ""})}, f...)
+			quirk = true
 		default:
 			f = append([]string{"123=Y"}, f...)
 		}
 		if r.chance(1, 15) {
-			f = f[:len(f)-1]
+			f, quirk = f[:len(f)-1], true
 		} else if r.chance(1, 20) {
-			f[len(f)-1] = "36=zz"
+			f[len(f)-1], quirk = "36=zz", true
 		}
-		return f
+		return
 	case "3":
-		return []string{"45=" + strconv.Itoa(r.intn(9)), "373=5"}
+		return []string{"45=" + strconv.Itoa(r.intn(9)), "373=5"}, false, "", ""
 	case "5":
-		return nil
+		return nil, false, "", ""
 	}
 	g.payload++
-	f := []string{"9000=" + strconv.Itoa(g.payload)}
+	f = []string{"9000=" + strconv.Itoa(g.payload), "55=" + r.pick([]string{"IBM", "MSFT", "X"})}
+	if kind == "D" || (kind == "8" && r.chance(1, 2)) {
+		f = append(f, "54="+r.pick([]string{"1", "2", "5"}))
+	}
 	switch r.intn(14) {
 	case 0:
 		f = append(f, "9001=rej")
@@ -662,16 +733,39 @@ func (g *sessGen) body(kind string) []string {
 		f = append(f, "9001=rlogon")
 	case 3:
 		f = append(f, "1=") // empty body value: validator
+		planted, ptag = "empty_value", "1"
+	case 4:
+		f = append(f, "1=ACC"+strconv.Itoa(r.intn(9)))
+	case 5:
+		if kind != "8" {
+			f = append(f, "38="+r.pick([]string{"100", "2.5", "0"}))
+		}
+	case 6:
+		f = append(f, "60=@"+strconv.Itoa(r.rangeInt(-5, 5)))
 	}
-	return f
+	return
 }
 
+// inbound: header + body as one field list, preceded by the generator's claim about the message's validity when it makes
+// one: `!conforming,-` or `!<defect kind>,<tag>` (a clean header and a body that conforms except for ONE planted defect)
 func (g *sessGen) inbound(kind string, h hdrOpts) string {
-	f := append(g.header(kind, h), g.body(kind)...)
+	body, quirk, planted, ptag := g.body(kind)
 	if kind == "A" && g.r.chance(1, 10) {
-		f = append(f, "9001="+g.r.pick([]string{"rlogon", "rej", "brej"}))
+		body = append(body, "9001="+g.r.pick([]string{"rlogon", "rej", "brej"}))
 	}
-	return strings.Join(f, " ")
+	ann := ""
+	if !h.defective && !quirk {
+		if planted == "" && g.r.chance(1, 5) {
+			body, planted, ptag = plantDefect(g.r, kind, body)
+		}
+		if planted == "" {
+			ann = "!conforming,- "
+		} else {
+			ann = "!" + planted + "," + ptag + " "
+			g.o.kind("plant." + planted)
+		}
+	}
+	return ann + strings.Join(append(g.header(kind, h), body...), " ")
 }
 
 func (g *sessGen) pickKind() string {
@@ -839,6 +933,33 @@ func genSess(r *rng, tier string, idx int, o *out, do func(string) string) strin
 		rst = strconv.Itoa(g.rst)
 	}
 	cfg += " rst=" + rst + " lsp=" + b(1, 4)
+	// the validator: data dictionaries (written by the harness, see sessdict.go) in two cases of five, the five validator
+	// settings explicitly in most of those and in some cases without a dictionary
+	randBits := func() string { return fmt.Sprintf("%05b", r.intn(32)) }
+	switch x := r.intn(20); {
+	case x < 8:
+		g.dict = true
+		se := o.sampleEach
+		o.sampleEach = 1 << 30 // (the dictionaries are long lines: not among the evidence samples)
+		if g.bsi == 5 {
+			g.run("ddict tr SDT " + sessDictAst("SDT").serialise())
+			g.run("ddict app SDA " + sessDictAst("SDA").serialise())
+			cfg += " dd=SDA tdd=SDT"
+		} else {
+			g.run("ddict app SD4 " + sessDictAst("SD4").serialise())
+			cfg += " dd=SD4"
+		}
+		o.sampleEach = se
+		switch r.intn(4) {
+		case 0:
+		case 1:
+			cfg += " vs=11011"
+		default:
+			cfg += " vs=" + randBits()
+		}
+	case x < 11:
+		cfg += " vs=" + randBits()
+	}
 	g.clock = 86400*(1+r.intn(4)) + r.intn(86400)
 	if g.rst >= 0 && r.chance(3, 4) {
 		g.clock = g.nextResetInstant() - 1 - r.intn(300)
